@@ -133,7 +133,13 @@ pub fn key_confusion(t: &mut Tape, content: &mut J, view: &View) {
 
 pub fn level_value(t: &mut Tape, n: i64, v: u8, allow_bad: bool) -> J {
     if v < 10 && t.chance(1, 5) {
-        return J::Str(n.to_string()); // string-typed level, legal before v10
+        // string-typed level, legal before v10; sometimes with an unusual but pure integer spelling
+        return J::Str(match t.below(6) {
+            0 if n >= 0 => format!("00{n}"),
+            1 if n == 0 => "-0".to_string(),
+            2 if n < 0 => format!("-0{}", -n),
+            _ => n.to_string(),
+        });
     }
     if allow_bad && t.chance(1, 12) {
         // v10+: must be rejected; before v10 only integer strings are used by the envelope
@@ -243,7 +249,10 @@ pub fn gen_power_levels(t: &mut Tape, view: &View, actor: &str, malformed_ok: bo
 /// A fresh first power-levels event in the usual shape (creator 100).
 pub fn initial_power_levels(t: &mut Tape, view: &View, many_admins: bool) -> J {
     let mut users = BTreeMap::new();
-    users.insert(view.creator.clone(), level_value(t, 100, view.v, false));
+    // (sometimes the creator gets no entry: with a power-levels event present the implicit 100 is gone)
+    if !t.chance(1, 8) {
+        users.insert(view.creator.clone(), level_value(t, 100, view.v, false));
+    }
     for u in &view.all_users {
         if *u != view.creator && many_admins && t.chance(1, 2) {
             // several admins on different servers: power-level changes can race across a partition
@@ -255,7 +264,9 @@ pub fn initial_power_levels(t: &mut Tape, view: &View, many_admins: bool) -> J {
         }
     }
     let mut m = BTreeMap::new();
-    m.insert("users".to_string(), J::Obj(users));
+    if !(users.is_empty() && t.chance(1, 2)) {
+        m.insert("users".to_string(), J::Obj(users));
+    }
     for (f, d) in [("ban", 50), ("kick", 50), ("redact", 50), ("invite", 0), ("state_default", 50), ("events_default", 0), ("users_default", 0)] {
         if t.chance(1, 2) {
             m.insert(f.to_string(), level_value(t, d, view.v, false));
